@@ -566,3 +566,96 @@ func evalIntCond(u *core.Unit, e ast.Expr, name string, val int64) (res bool, ok
 	}
 	return false, false
 }
+
+// gStrLocalNonEmpty: the string local `name` is non-empty — `len(name) > 0`, `len(name) != 0`, `name != ""` (true edge) and their negations.
+func gStrLocalNonEmpty(name string) core.Guard {
+	return gStrExprNonEmpty(func(u *core.Unit, e ast.Expr) bool { return isLocalAnyDepth(u, e, name) })
+}
+
+// gStrExprNonEmpty: like gStrLocalNonEmpty for any expression accepted by match.
+func gStrExprNonEmpty(match func(u *core.Unit, e ast.Expr) bool) core.Guard {
+	return func(u *core.Unit, br core.Branch) int {
+		cmp, ok := u.BranchCmp(br)
+		if !ok || cmp.Val == nil {
+			return 0
+		}
+		if ce, isC := ast.Unparen(cmp.X).(*ast.CallExpr); isC && calleeNameOf0(ce) == "len" && len(ce.Args) == 1 && match(u, ce.Args[0]) && cmp.Val.ExactString() == "0" {
+			switch cmp.Op {
+			case token.GTR, token.NEQ:
+				return 1
+			case token.EQL, token.LEQ:
+				return -1
+			}
+			return 0
+		}
+		if match(u, cmp.X) && cmp.Val.Kind() == constant.String && constant.StringVal(cmp.Val) == "" {
+			switch cmp.Op {
+			case token.NEQ:
+				return 1
+			case token.EQL:
+				return -1
+			}
+		}
+		return 0
+	}
+}
+
+// gLocalStrIs: the string local `name` equals the constant val (true edge), by value (whatever side the constant is written on).
+func gLocalStrIs(name, val string) core.Guard {
+	return func(u *core.Unit, br core.Branch) int {
+		cmp, ok := u.BranchCmp(br)
+		if !ok || cmp.Val == nil || cmp.Val.Kind() != constant.String || constant.StringVal(cmp.Val) != val || !isLocalAnyDepth(u, cmp.X, name) {
+			return 0
+		}
+		switch cmp.Op {
+		case token.EQL:
+			return 1
+		case token.NEQ:
+			return -1
+		}
+		return 0
+	}
+}
+
+// localAnchors: the effect tables name a few local variables of the functions
+// they describe. A renamed local is not a behaviour change: when an anchor is
+// gone the table gives no verdict (UNDECIDED, exit 2) instead of a violation.
+func localAnchors(c *core.Ctx, R string, u *core.Unit, names ...string) bool {
+	if u == nil {
+		return false
+	}
+	have := map[string]bool{}
+	root := u.Root()
+	ast.Inspect(root.Body, func(n ast.Node) bool {
+		if id, ok := n.(*ast.Ident); ok {
+			if _, isDef := u.Info().Defs[id]; isDef {
+				have[id.Name] = true
+			}
+		}
+		return true
+	})
+	for x := u; x != nil; x = x.Parent {
+		if x.Type != nil && x.Type.Params != nil {
+			for _, f := range x.Type.Params.List {
+				for _, n := range f.Names {
+					have[n.Name] = true
+				}
+			}
+		}
+		if x.Type != nil && x.Type.Results != nil {
+			for _, f := range x.Type.Results.List {
+				for _, n := range f.Names {
+					have[n.Name] = true
+				}
+			}
+		}
+	}
+	ok := true
+	for _, n := range names {
+		if !have[n] {
+			c.Undecided(R, u.Key+"/local:"+n, "the local variable this table is anchored on was renamed or removed: no verdict")
+			ok = false
+		}
+	}
+	return ok
+}
